@@ -17,6 +17,7 @@ func init() {
 	register("C15", "other", func(p *Program, r *Report) {
 		runC15(p, r)
 		checkBoundsProven(p, r, "C15.B1", "style.go")
+		checkLoopsMakeProgress(p, r, "C15.B2", "style.go")
 	})
 }
 
